@@ -1,9 +1,9 @@
 #!/bin/bash
-# usage: confirm_seed.sh <seed dir with patch.diff demo.py> <name>
+# usage: confirm_seed.sh <seed dir with patch.diff demo.py> <name> [pytest workers, default 4]
 # Confirms in a scratch worktree: demo exits 0 on clean code, 1 with the patch; existing suite passes with the patch.
 # Writes /tmp/cf/<name>.result ; removes the worktree when done.
 set -u
-SD=$1; NAME=$2
+SD=$1; NAME=$2; NW=${3:-4}
 WT=/tmp/cf/wt_$NAME
 mkdir -p /tmp/cf
 git -C /repo worktree add -q --detach $WT HEAD || exit 2
@@ -12,10 +12,11 @@ cp /repo/src/gbigsmiles/_version.py $WT/src/gbigsmiles/_version.py
 cd $WT
 PYTHONPATH=$WT/src timeout 300 /venv/bin/python $SD/demo.py > /tmp/cf/$NAME.demo_clean.log 2>&1; RC_CLEAN=$?
 git apply $SD/patch.diff; RC_APPLY=$?
+FILES=$(git status --short | tr '\n' ' ')
 PYTHONPATH=$WT/src timeout 300 /venv/bin/python $SD/demo.py > /tmp/cf/$NAME.demo_patched.log 2>&1; RC_PATCHED=$?
-PYTHONPATH=$WT/src /venv/bin/python -m pytest -q -p no:cacheprovider --timeout=3000 tests > /tmp/cf/$NAME.pytest.log 2>&1
+PYTHONPATH=$WT/src /venv/bin/python -m pytest -q -p no:cacheprovider -n $NW --timeout=3000 tests > /tmp/cf/$NAME.pytest.log 2>&1
 FAILED=$(grep -E "^FAILED" /tmp/cf/$NAME.pytest.log | grep -v "test_flory_schulz\|test_schulz_zimm" | wc -l)
 TAIL=$(tail -1 /tmp/cf/$NAME.pytest.log)
-echo "name=$NAME apply=$RC_APPLY demo_clean=$RC_CLEAN demo_patched=$RC_PATCHED unexpected_test_failures=$FAILED pytest='$TAIL'" > /tmp/cf/$NAME.result
+echo "name=$NAME apply=$RC_APPLY demo_clean=$RC_CLEAN demo_patched=$RC_PATCHED unexpected_test_failures=$FAILED files='$FILES' pytest='$TAIL'" > /tmp/cf/$NAME.result
 )
 git -C /repo worktree remove --force $WT
